@@ -103,6 +103,8 @@ Unrelated == Mk2("q", I("1"), "l", L(<<S("u")>>))
 (* values that print alike but differ in type are different values *)
 TypeEdits(t) == { Put(t, "l", L(<<Single("k", S("1")), E2, I("3")>>)), Put(t, "l", L(<<E1, E2, S("3")>>)),
                   Put(t, "a", S("1")), SetM(t, "y", L(<<S("1"), I("2")>>)), Put(t, "s", True),
+                  (* strings that differ only in what a reader may be tempted to trim or fold *)
+                  Put(t, "s", S("str\n")), Put(t, "s", S("str ")), Put(t, "s", S("Str")), Put(t, "s", S(" str")),
                   (* two integers that are one double *)
                   Put(t, "big", I("9007199254740993")), Put(t, "big", I("9007199254740992")),
                   SetM(t, "ts", I("1700000000000000001")), SetM(t, "ts", I("1700000000000000000")) }
